@@ -5,10 +5,10 @@ META = {
         "02.a lunar before/after = lexicographic order of (year, index in year, day), i.e. chronological order, including between a month and its leap twin, for any leap month of the year",
         "02.c civil -> lunar: under a tiling month table (lengths 29..30) and the contract that the lunar month after the one carrying the civil month's number begins after the date, SolarDay::get_lunar_day reports the month containing the date and day = day number - month's first day + 1; lunar -> civil: LunarDay::get_solar_day = month's first day + day - 1. Hence both round trips are identities and consecutive civil days map to day+1 or day 1 of the following month wherever the table tiles",
         "02.d LunarDay::next(n) denotes the lunar date of the civil day n days later (composition of 02.c2, 01.g, 02.c); shortcuts that rebuild the date from month numbers must keep the month's identity (leap flag included)",
+        "02.e LunarHour before/after = chronological order of (lunar day, hour, minute, second), lunar days ordered per 02.a",
         "02.b LunarDay::new accepts exactly day 1..(day count of the month it looks up) and keeps that month",
     ],
-    "outside": ["that the real new-moon table tiles and satisfies the starting-month contract (it does not in AD 9-25 and AD 240: 0025-01-10 -> 0025-02-08, recorded in DESIGN §4; nor after a mis-set first-month offset, seeded change C02-A): data of the astronomical kernel",
-                "LunarHour ordering (delegates to the day order plus clock fields)"],
+    "outside": ["that the real new-moon table tiles and satisfies the starting-month contract (it does not in AD 9-25 and AD 240: 0025-01-10 -> 0025-02-08, recorded in DESIGN §4; nor after a mis-set first-month offset, seeded change C02-A): data of the astronomical kernel"],
     "assumptions": [
         "month records satisfy the invariant established by LunarMonth::new (obligation 03.c): index in year = month - 1, +1 for the leap month and for months after it",
         "02.c: lunar months are objects on the month line (LunarMonth::next moves by one: 11.e) whose first-day numbers tile; days are day numbers (C01); the walk loop is unrolled 5 times with the bound proved; LunarDay's one-slot cache is empty",
@@ -26,4 +26,4 @@ def engine_b(tier, seed, scr):
     if eng is None:
         return err
     return [lunar.k_day_order(eng, "is_before"), lunar.k_day_order(eng, "is_after"), lunar.k_day_new(eng), lunar.k_month_new(eng),
-            lunar.k_solar_to_lunar(eng), lunar.k_lunar_to_solar(eng), lunar.k_lunar_day_next(eng)]
+            lunar.k_solar_to_lunar(eng), lunar.k_lunar_to_solar(eng), lunar.k_lunar_day_next(eng), lunar.k_lunar_hour_order(eng, "is_before"), lunar.k_lunar_hour_order(eng, "is_after")]
